@@ -6,7 +6,7 @@ Lemma P_b_sound (c : case) : P_b c = true ->
   (forall a, In a (c_answers c ++ c_answers_idx c) -> forall v b, In (v, b) a -> b = true).
 Proof.
   unfold P_b, answers_whole. intro H.
-  apply andb_true_iff in H as [H Hw]. apply andb_true_iff in H as [H Hc]. apply andb_true_iff in H as [Hr Hh].
+  apply andb_true_iff in H as [H _]. apply andb_true_iff in H as [H Hw]. apply andb_true_iff in H as [H Hc]. apply andb_true_iff in H as [Hr Hh].
   apply negb_true_iff in Hr, Hh, Hc. repeat split; auto.
   intros a Ha v b Hin. apply andb_true_iff in Hw as [H1 H2].
   rewrite forallb_forall in H1, H2.
